@@ -195,6 +195,21 @@ PROPS = {
                  "branch on secret bytes is taken: the reachability twin runs with the same length)"],
         assumptions=["the observables of the statement are log records >= INFO and result messages"],
     ),
+    "C05": dict(
+        modules=["harness.c05"],
+        level="other",
+        explanation="Bounded symbolic execution of the Python legs an object travels: the pie Key wrapping-data "
+                    "flatten/unflatten, the SQLAlchemy TypeDecorator column conversions, and Register -> (pie "
+                    "conversion, stub store) -> Get / GetAttributes through the real engine handlers with symbolic "
+                    "value bytes, names, masks and flags; plus the frame condition that read-only operations never "
+                    "modify or leave pending changes on stored objects.",
+        stubs=["FakeSession / TxSession (the SQL engine leg)", "RecordingCrypto", "NullLogger", "engine.time pinned"],
+        outside=["SQLite and SQLAlchemy storing and returning column values unchanged; server restarts (no Python "
+                 "state survives one, so they reduce to that trusted leg)", "key pairs, split keys and certificates in "
+                 "the register-get conditions (thorough tier adds kinds to the read-only conditions only)",
+                 "value lengths other than those listed"],
+        assumptions=["the ORM persists exactly the mapped attributes that the snapshot compares"],
+    ),
     "C15": dict(
         modules=["harness.c15"],
         level="other",
@@ -252,6 +267,17 @@ PROPS = {
 }
 
 CLAIMS = {
+    "C05": dict(
+        text="PARTIAL (the SQL engine leg is trusted): within the bounds, the key-wrapping-data columns reproduce "
+             "the supplied dictionary field by field; the usage-mask and enumeration column types satisfy "
+             "result(bind(x)) == x for every subset of each mask window and every member; a Register followed by Get "
+             "and GetAttributes through the real engine returns the value bytes, type, algorithm, length, format, "
+             "names, masks, sensitive flag, group and policy that were supplied; read-only operations (incl. wrapped "
+             "Get followed by a committing item) leave the stored object and the committed state untouched; modifying "
+             "one object never changes what another reports.",
+        note="SQLite/SQLAlchemy storing column values unchanged is trusted, restarts reduce to that leg; client "
+             "argument plumbing is C19.",
+    ),
     "C20": dict(
         text="For each scenario (every secret-carrying operation with its listed success and failure variants, "
              "through the engine; Register request bytes of five shapes and password credentials through the real "
